@@ -365,6 +365,42 @@ def keys(ctx: Ctx, py: PyProgram, rs: RustProgram) -> None:
 
 
 # ---------------------------------------------------------------------------
+def _py_temps_reader_formats(ctx: Ctx, py: PyProgram, load: ast.FunctionDef) -> set[str]:
+    """Which key spellings does the Python loader turn into the integer scratch-register index?  The statements that build the mapping
+    handed to CPURegistersSnapshot(temps=...) are interpreted on a one-entry `temps` table in either spelling."""
+    from ..pyfacts import NotConst, PyRaised
+    ctor = [c for c in ast.walk(load) if isinstance(c, ast.Call) and unparse(c.func).endswith("CPURegistersSnapshot") and any(k.arg == "temps" for k in c.keywords)]
+    ctx.need(len(ctor) == 1, "load_snapshot: CPURegistersSnapshot(temps=...) not found")
+    tv = next(k.value for k in ctor[0].keywords if k.arg == "temps")
+    ctx.need(isinstance(tv, ast.Name), "load_snapshot: temps argument is not a local")
+    name = tv.id
+    stmts = []
+    for st in ast.walk(load):
+        if isinstance(st, (ast.Assign, ast.AnnAssign)) and any(isinstance(t, ast.Name) and t.id == name for t in (st.targets if isinstance(st, ast.Assign) else [st.target])):
+            stmts.append(st)
+        elif isinstance(st, ast.For) and any(isinstance(x, ast.Subscript) and isinstance(x.ctx, ast.Store) and isinstance(x.value, ast.Name) and x.value.id == name for x in ast.walk(st)):
+            stmts.append(st)
+    stmts.sort(key=lambda s_: s_.lineno)
+    ctx.need(bool(stmts), "load_snapshot: statements building the temps mapping not found")
+    meta_names = {a.targets[0].id for a in ast.walk(load) if isinstance(a, ast.Assign) and len(a.targets) == 1 and isinstance(a.targets[0], ast.Name) and "json.loads" in unparse(a.value)} or {"metadata"}
+    out: set[str] = set()
+    for tag, key in (("<n>", "3"), ("TEMP<n>", "TEMP3")):
+        ev = PyEval(py, py.module(EMU), budget=[20000])
+        ev.env = {m_: {"temps": {key: 7}} for m_ in meta_names}
+        try:
+            ev.exec_block(stmts)
+            got = ev.env.get(name)
+        except PyRaised:
+            got = None           # the loader raises on this spelling
+        except (ValueError, KeyError, TypeError):
+            got = None           # a conversion in the loader fails on this spelling
+        except NotConst as e:
+            raise AnalysisError(f"load_snapshot: building the temps mapping left the evaluable fragment: {e}")
+        if isinstance(got, dict) and got == {3: 7}:
+            out.add(tag)
+    return out
+
+
 def temp_key_format(ctx: Ctx, py: PyProgram, rs: RustProgram) -> None:
     """`temps` is a map keyed by register name; the key format each loader parses must be the format the other saver writes."""
     n = 0
@@ -385,12 +421,7 @@ def temp_key_format(ctx: Ctx, py: PyProgram, rs: RustProgram) -> None:
     ctx.need(idx_keys, "from_registers: temps[index] not found")
     # Python reader
     load = py.func(EMU, "PCE500Emulator.load_snapshot")
-    tr = [v for v in ast.walk(load) if isinstance(v, ast.DictComp) and any(isinstance(c, ast.Constant) and c.value == "temps" for c in ast.walk(v))]
-    ctx.need(len(tr) == 1, "load_snapshot: temps comprehension not found")
-    ktxt = unparse(tr[0].key)
-    py_r = {"<n>"} if ktxt == "int(key)" else set()
-    if "TEMP" in ktxt and ("removeprefix" in ktxt or "replace" in ktxt or "lstrip" in ktxt or "[4:]" in ktxt):
-        py_r = {"<n>", "TEMP<n>"}
+    py_r = _py_temps_reader_formats(ctx, py, load)
     # Rust writer: collect_registers format!("TEMP{idx}")
     cr = rs.fn(isa.LIB_RS, "collect_registers")
     fm = [m for m in walk(cr.body) if m.get("k") == "macro" and m.get("name") == "format"]
